@@ -201,6 +201,7 @@ def request_oracle(tags, events, trace):
     evs = list(events)
     pending = None      # challenge bytes (hex) that the next send must echo
     collecting = 0
+    after_split = False  # a split response was just completed: its reassembled kind may be a challenge
     kind = None
     for tok in trace.split(";"):
         if not tok:
@@ -213,10 +214,13 @@ def request_oracle(tags, events, trace):
             ev = ev[:6144]          # the client reads at most PACKET_SIZE bytes of a datagram
             if collecting > 0:
                 collecting -= 1
+                after_split = collecting == 0
                 continue
+            after_split = False
             if ev[:1] == b"\xfe" and len(ev) > 8:
                 total = (ev[8] & 15) if gold else ev[8]
                 collecting = max(total - 1, 0)
+                after_split = collecting == 0
             elif len(ev) >= 5 and ev[4] == 0x41:
                 # the client does not inspect the 4 header bytes of an unsplit packet; whatever
                 # carries the challenge kind is answered as a challenge
@@ -235,10 +239,16 @@ def request_oracle(tags, events, trace):
                 if body != want or k != kind:
                     return "challenge %s not echoed: sent %s" % (pending[:80], data[:120])
                 pending = None
+            elif after_split and k == kind and body != default:
+                # a (malformed) split response reassembled into a challenge packet: the echo
+                # carries its payload; only the framing can be checked here
+                if k == "54" and not body.startswith(INFO_PAYLOAD):
+                    return "challenge echo without the query string: " + data[:120]
             else:
                 if k not in ("54", "55", "56") or body != default:
                     return "not a request of the protocol: " + data[:120]
                 kind = k
+            after_split = False
         elif tok[0] in "UA":
             continue
         else:
